@@ -120,6 +120,172 @@ S.lemma_fn(root_is_min, cls="UHeap", module="problog.util",
            requires=["HEAP", "0 <= i < n"], ensures=["LE(0, i)"], decreases="i")
 
 
+# =============================================================================== BitVector
+# view: the set {32*b + i | bit i of blocks[b] is set};  M(o, j) is "j is a member of o".
+S.global_defs = dict(
+    M="lambda o, j: j >= 0 and (j >> 5) < len(o.blocks) and (o.blocks[j >> 5] & (1 << (j & 31))) != 0",
+    BVI="lambda o: o.binsize_bits == 5 and o.binsize == 32 and"
+        " forall(lambda t: implies(0 <= t < len(o.blocks), 0 <= o.blocks[t] < 4294967296))",
+)
+S.cls("problog.util:BitVector",
+      fields={"binsize_bits": "Int", "binsize": "Int", "blocks": "List[Int]", "blocks_size": "List[Int]"})
+S.alias("BV", "Ref[BitVector]")
+
+S.fn("problog.util:BitVector.__init__",
+     modifies=["self.binsize_bits", "self.binsize", "self.blocks", "self.blocks_size"],
+     ensures=["BVI(self)", "len(self.blocks) == 0", "forall(lambda j: not M(self, j))"])
+
+S.fn("problog.util:BitVector.add", types={"index": "Int"},
+     requires=["BVI(self)", "index >= 0"],
+     modifies=["self.blocks"],
+     ensures=["BVI(self)",
+              "forall(lambda j: M(self, j) == (old(M(self, j)) or j == index))"])
+
+S.fn("problog.util:BitVector.__contains__", types={"index": "Int"},
+     requires=["BVI(self)", "index >= 0"],
+     ensures=["bool(result) == M(self, index)"])
+
+S.fn("problog.util:BitVector.__and__", types={"other": "BV"}, returns="BV",
+     requires=["BVI(self)", "BVI(other)"],
+     modifies=["BitVector.binsize_bits", "BitVector.binsize", "BitVector.blocks", "BitVector.blocks_size"],
+     loops={0: loop(index="k", invariant=[
+         "BVI(result)", "result is not self", "result is not other", "len(result.blocks) == k",
+         "forall(lambda t: implies(0 <= t < k, result.blocks[t] == self.blocks[t] & other.blocks[t]))",
+         "self.blocks == old(self.blocks)", "other.blocks == old(other.blocks)",
+         "BVI(self)", "BVI(other)"])},
+     ensures=["BVI(result)", "result is not self", "result is not other",
+              "forall(lambda j: M(result, j) == (old(M(self, j)) and old(M(other, j))))",
+              "forall(lambda j: M(self, j) == old(M(self, j)))", "forall(lambda j: M(other, j) == old(M(other, j)))"])
+
+S.fn("problog.util:BitVector.__iand__", types={"other": "BV"}, returns="BV",
+     requires=["BVI(self)", "BVI(other)"],
+     modifies=["self.blocks"],
+     loops={0: loop(index="k", invariant=[
+         "len(self.blocks) == old(len(self.blocks))",
+         "forall(lambda t: implies(0 <= t < k, self.blocks[t] == old(self.blocks[t]) & old(other.blocks[t])))",
+         "forall(lambda t: implies(k <= t < len(self.blocks), self.blocks[t] == old(self.blocks[t])))",
+         "other is self or other.blocks == old(other.blocks)",
+         "self.binsize_bits == 5 and self.binsize == 32"])},
+     ensures=["result is self", "BVI(self)",
+              "forall(lambda j: M(self, j) == (old(M(self, j)) and old(M(other, j))))"])
+
+S.fn("problog.util:BitVector.__or__", types={"other": "BV"}, returns="BV",
+     requires=["BVI(self)", "BVI(other)"],
+     modifies=["BitVector.binsize_bits", "BitVector.binsize", "BitVector.blocks", "BitVector.blocks_size"],
+     loops={0: loop(index="k", invariant=[
+         "BVI(result)", "result is not self", "result is not other", "len(result.blocks) == k",
+         "forall(lambda t: implies(0 <= t < k, result.blocks[t] == self.blocks[t] | other.blocks[t]))",
+         "self.blocks == old(self.blocks)", "other.blocks == old(other.blocks)",
+         "BVI(self)", "BVI(other)"])},
+     ensures=["BVI(result)", "result is not self", "result is not other",
+              "forall(lambda j: M(result, j) == (old(M(self, j)) or old(M(other, j))))",
+              "forall(lambda j: M(self, j) == old(M(self, j)))", "forall(lambda j: M(other, j) == old(M(other, j)))"])
+
+S.fn("problog.util:BitVector.__ior__", types={"other": "BV"}, returns="BV",
+     requires=["BVI(self)", "BVI(other)"],
+     modifies=["self.blocks"],
+     loops={0: loop(index="k", invariant=[
+         "len(self.blocks) == old(len(self.blocks))",
+         "forall(lambda t: implies(0 <= t < k, self.blocks[t] == old(self.blocks[t]) | old(other.blocks[t])))",
+         "forall(lambda t: implies(k <= t < len(self.blocks), self.blocks[t] == old(self.blocks[t])))",
+         "other is self or other.blocks == old(other.blocks)",
+         "self.binsize_bits == 5 and self.binsize == 32"])},
+     ensures=["result is self", "BVI(self)",
+              "forall(lambda j: M(self, j) == (old(M(self, j)) or old(M(other, j))))"])
+
+# =============================================================================== OrderedSet
+# The cells are 3-element Python lists [key, prev, next] that alias each other: heap records.
+# Ghost view: g_cells = the cells in ring order (so order(i) = g_cells[i][0] is the iteration
+# order), g_pos = position of every key.  Every postcondition states the whole new view.
+S.alias("K", "Abs[K]")
+S.rec("Cell", **{"0": "Opt[K]", "1": "Ref[Cell]", "2": "Ref[Cell]"})
+S.assume("OrderedSet: cells are 3-element lists [key, prev, next]; keys are hashable with == consistent with hash")
+S.cls("problog.util:OrderedSet",
+      fields={"end": "Ref[Cell]", "map": "Dict[K,Ref[Cell]]"},
+      ghost={"g_cells": "List[Ref[Cell]]", "g_pos": "Dict[K,Int]"},
+      defs=dict(
+          m="len(self.g_cells)",
+          okey="lambda i: unwrap(self.g_cells[i][0])",
+          WF="len(self.map) == m and self.end[0] is None and allocated(self.end)"
+             " and forall(lambda i: implies(0 <= i < m, self.g_cells[i] is not self.end and allocated(self.g_cells[i])"
+             "       and self.g_cells[i][0] is not None))"
+             " and (self.end[1] is self.end and self.end[2] is self.end if m == 0 else"
+             "      self.end[2] is self.g_cells[0] and self.end[1] is self.g_cells[m - 1]"
+             "      and self.g_cells[0][1] is self.end and self.g_cells[m - 1][2] is self.end)"
+             " and forall(lambda i: implies(0 <= i < m - 1, self.g_cells[i][2] is self.g_cells[i + 1]"
+             "       and self.g_cells[i + 1][1] is self.g_cells[i]))"
+             " and forall(lambda i: implies(0 <= i < m, okey(i) in self.map and self.map[okey(i)] is self.g_cells[i]"
+             "       and self.g_pos[okey(i)] == i))"
+             " and forall(lambda k: implies(k in self.map, 0 <= self.g_pos[k] < m"
+             "       and okey(self.g_pos[k]) == k), 'K')",
+          SAMEORDER="m == old(m) and forall(lambda i: implies(0 <= i < m, okey(i) == old(okey(i))))",
+      ))
+OSET = dict(alloc_as={0: "Cell", 3: "Cell"})
+
+S.fn("problog.util:OrderedSet.__init__", types={"iterable": "None"},
+     modifies=["self.end", "self.map", "Cell.*"],
+     ghost_exit={"g_cells": "typed([], 'List[Ref[Cell]]')", "g_pos": "old(self.g_pos)"},
+     ensures=["WF", "m == 0"], dead_ok=["self |= iterable"], **OSET)
+
+S.fn("problog.util:OrderedSet.__len__", returns="Int", requires=["WF"], ensures=["result == m"])
+S.fn("problog.util:OrderedSet.__contains__", types={"key": "K"}, returns="Bool", requires=["WF"],
+     ensures=["result == exists(lambda i: 0 <= i < m and okey(i) == key)"])
+
+S.fn("problog.util:OrderedSet.add", types={"key": "K"},
+     requires=["WF"],
+     modifies=["self.map", "Cell.*"],
+     ghost_exit={
+         "g_cells": "old(self.g_cells) if old(key in self.map) else old(self.g_cells) + [self.map[key]]",
+         "g_pos": "old(self.g_pos) if old(key in self.map) else store(old(self.g_pos), key, old(m))"},
+     ensures=["WF",
+              # whole new view: unchanged if present, else old order followed by key
+              "implies(old(key in self.map), SAMEORDER)",
+              "implies(not old(key in self.map), m == old(m) + 1 and okey(m - 1) == key"
+              " and forall(lambda i: implies(0 <= i < m - 1, okey(i) == old(okey(i)))))"],
+     **OSET)
+
+S.fn("problog.util:OrderedSet.discard", types={"key": "K"},
+     requires=["WF"],
+     modifies=["self.map", "Cell.*"],
+     ghost_exit={
+         "g_cells": "list_remove(old(self.g_cells), old(self.g_pos[key])) if old(key in self.map) else old(self.g_cells)",
+         "g_pos": "shift_down(old(self.g_pos), old(self.g_pos[key])) if old(key in self.map) else old(self.g_pos)"},
+     at=[("self.map.pop(key)", "0 <= old(self.g_pos[key]) < old(m)"),
+         ("self.map.pop(key)", "old(self.g_cells[self.g_pos[key]]) is old(self.map[key])"),
+         ("self.map.pop(key)", "prv is (self.end if old(self.g_pos[key]) == 0 else old(self.g_cells[self.g_pos[key] - 1]))"),
+         ("self.map.pop(key)", "nxt is (self.end if old(self.g_pos[key]) == old(m) - 1 else old(self.g_cells[self.g_pos[key] + 1]))")],
+     ensures=["WF",
+              "implies(not old(key in self.map), SAMEORDER)",
+              "implies(old(key in self.map), m == old(m) - 1"
+              " and forall(lambda i: implies(0 <= i < m, okey(i) == (old(okey(i)) if i < old(self.g_pos[key]) else old(okey(i + 1))))))"],
+     **OSET)
+
+S.fn("problog.util:OrderedSet.__iter__", yields="List[Opt[K]]",
+     requires=["WF"],
+     loops={0: loop(ghost={"j": ("0", "j + 1")},
+                    invariant=["0 <= j <= m", "curr is (self.g_cells[j] if j < m else self.end)",
+                               "len(yielded) == j",
+                               "forall(lambda i: implies(0 <= i < j, yielded[i] == self.g_cells[i][0]))"],
+                    decreases="m - j")},
+     ensures=["len(result) == m", "forall(lambda i: implies(0 <= i < m, result[i] == self.g_cells[i][0]))"])
+
+S.fn("problog.util:OrderedSet.__reversed__", yields="List[Opt[K]]",
+     requires=["WF"],
+     loops={0: loop(ghost={"j": ("0", "j + 1")},
+                    invariant=["0 <= j <= m", "curr is (self.g_cells[m - 1 - j] if j < m else self.end)",
+                               "len(yielded) == j",
+                               "forall(lambda i: implies(0 <= i < j, yielded[i] == self.g_cells[m - 1 - i][0]))"],
+                    decreases="m - j")},
+     ensures=["len(result) == m", "forall(lambda i: implies(0 <= i < m, result[i] == self.g_cells[m - 1 - i][0]))"])
+
+S.fn("problog.util:OrderedSet.pop", types={"last": "Bool"}, returns="Opt[K]",
+     requires=["WF"],
+     raises={"KeyError": "m == 0"},
+     modifies=["self.map", "Cell.*", "self.g_cells", "self.g_pos"],
+     ensures=["WF", "old(m) > 0", "m == old(m) - 1",
+              "result == (old(self.g_cells[m - 1][0]) if last else old(self.g_cells[0][0]))",
+              "forall(lambda i: implies(0 <= i < m, okey(i) == (old(okey(i)) if last else old(okey(i + 1)))))"])
+
 # =============================================================================== native side
 # Bounded stand-in / counter-example search: recipes are JSON; inputs are rebuilt deterministically
 # from a recipe with the *real* classes.  Bounds: heaps of <= 9 items, keys/items in 0..11.
@@ -174,11 +340,65 @@ def native_build(qual, recipe):
         if m == "push":
             return dict(self=h, item=recipe["item"])
         return dict(self=h)
+    if name.startswith("OrderedSet."):
+        from problog.util import OrderedSet
+        import pyvc.native as N
+        m = name.split(".")[1]
+        N.UNIVERSE["K"] = set(range(-1, 9))
+        if m == "__init__":
+            return dict(self=object.__new__(OrderedSet), iterable=None)
+        s = OrderedSet()
+        for op in recipe["ops"]:
+            if op[0] == "add":
+                s.add(op[1])
+            elif op[0] == "discard":
+                s.discard(op[1])
+            elif op[0] == "pop" and len(s.map):
+                s.pop(op[1])
+        if m in ("add", "discard", "__contains__"):
+            return dict(self=s, key=recipe["key"])
+        if m == "pop":
+            return dict(self=s, last=recipe["last"])
+        return dict(self=s)
+    if name.startswith("BitVector."):
+        from problog.util import BitVector
+        m = name.split(".")[1]
+        if m == "__init__":
+            return dict(self=object.__new__(BitVector))
+
+        def mk(xs):
+            v = BitVector()
+            for x in xs:
+                v.add(x)
+            return v
+        a = mk(recipe["a"])
+        if m in ("add", "__contains__"):
+            return dict(self=a, index=recipe["index"])
+        other = a if recipe.get("same") else mk(recipe["b"])
+        return dict(self=a, other=other)
     raise Skip()
 
 
 def native_cases(qual, rng):
     name = qual.split(":")[1]
+    if name.startswith("OrderedSet."):
+        # bounds: keys 0..7, at most 10 operations before the call
+        for _ in range(100000):
+            ops = []
+            for _ in range(rng.randint(0, 10)):
+                r = rng.random()
+                ops.append(["add", rng.randint(0, 7)] if r < 0.65 else
+                           (["discard", rng.randint(0, 7)] if r < 0.9 else ["pop", rng.random() < 0.5]))
+            yield dict(ops=ops, key=rng.randint(0, 7), last=rng.random() < 0.5)
+        return
+    if name.startswith("BitVector."):
+        # bounds: members below 200 (7 blocks), at most 8 members per vector
+        for _ in range(100000):
+            hi = rng.choice([5, 40, 70, 200])
+            yield dict(a=[rng.randint(0, hi) for _ in range(rng.randint(0, 8))],
+                       b=[rng.randint(0, rng.choice([5, 40, 70, 200])) for _ in range(rng.randint(0, 8))],
+                       index=rng.randint(0, hi + 40), same=rng.random() < 0.1)
+        return
     if not name.startswith("UHeap."):
         return
     m = name.split(".")[1]
@@ -201,6 +421,19 @@ def native_cases(qual, rng):
         elif m == "push":
             rec.update(item=rng.randint(0, 9), final_keys=[[rng.randint(0, 9), rng.randint(0, 11)] for _ in range(2)])
         yield rec
+
+
+def native_ghost(vals):
+    """Ghost fields of OrderedSet objects, recomputed from the concrete ring (bounded walk)."""
+    for v in vals.values():
+        if type(v).__name__ == "OrderedSet" and hasattr(v, "end"):
+            cells, cur, steps = [], v.end[2] if len(v.end) == 3 else v.end, 0
+            while cur is not v.end and steps <= len(v.map) + 2:
+                cells.append(cur)
+                cur = cur[2]
+                steps += 1
+            v.g_cells = cells
+            v.g_pos = dict((c[0], i) for i, c in enumerate(cells))
 
 
 _LAST = [None]
